@@ -59,7 +59,9 @@ impl LocalizationAdapter for FixedLocalizationAdapter {
         let mut locales = vec![];
         self.append_locale(locale, &mut locales);
         self.append_locale(&self.default_locale, &mut locales);
-        debug!(locales = ?locales, "build locales");
+        // the client chooses the locale: logging every fallback of it would render text that grows
+        // with the square of its length
+        debug!(locale, fallbacks = locales.len(), "build locales");
 
         let mut locale_messages = None;
         for locale in &locales {
@@ -70,7 +72,7 @@ impl LocalizationAdapter for FixedLocalizationAdapter {
         }
 
         let Some(locale_messages) = locale_messages else {
-            warn!(locales = ?locales, "cannot find locales");
+            warn!(locale, fallbacks = locales.len(), "cannot find locales");
             return Ok(key.to_string());
         };
 
